@@ -167,7 +167,10 @@ def form_items(form):
 def run_wsgi_seq(bname, chunks, seq):
     from baize import wsgi
     body, ct = BODIES[bname]
-    req = drivers.Req(method="POST", headers=[("Content-Type", ct)], chunks=chunks)
+    hdrs = [("Content-Type", ct)]
+    if len(seq) % 2:  # an accurate Content-Length is present in half of the cases, absent in the other half
+        hdrs.append(("Content-Length", str(len(body))))
+    req = drivers.Req(method="POST", headers=hdrs, chunks=chunks)
     env = drivers.to_environ(req)
     r = wsgi.Request(env)
     out, objs = [], {}
@@ -220,7 +223,8 @@ def run_asgi_seq(bname, chunks, seq, disc):
         return m
 
     async def main():
-        scope = drivers.to_scope(drivers.Req(method="POST", headers=[("Content-Type", ct)]))
+        hdrs = [("Content-Type", ct)] + ([("Content-Length", str(len(body)))] if len(seq) % 2 else [])
+        scope = drivers.to_scope(drivers.Req(method="POST", headers=hdrs))
         r = asgi.Request(scope, receive)
         out, objs = [], {}
         for op in seq:
